@@ -1,3 +1,309 @@
+//! C12 - Byte channels are lossless bounded FIFO pipes with no lost wake-ups.
+//!
+//! Leg "op"   (E2): full reachability of {reader task, writer task} x real channel at operation
+//!                  granularity, oracles on every transition and state.
+//! Leg "task" (E1): deviation-bounded schedules of two real futures (write_all / read_exact /
+//!                  FramedRead) with drop faults and spurious polls; same oracles + termination.
+
+mod oplevel;
+mod tasklevel;
+
+use oplevel::{Cfg, HState, Op, Snap};
+use serde_json::{json, Value};
+use std::collections::{BTreeMap, HashSet};
+use std::sync::atomic::Ordering;
+use std::sync::Mutex;
+use std::time::Instant;
+use tasklevel::{ChanWorld, TCfg};
+use vcommon::sched;
+use vcommon::{Ctx, Leg};
+
+const BUDGETS: [usize; 3] = [2, 3, 64];
+
+fn op_cfg_json(c: &Cfg) -> Value {
+    json!({"capacity": c.cap, "budget": c.budget, "total_bytes": c.total, "max_ops_per_poll": c.k, "max_request": c.max_req})
+}
+
+fn op_cfg_from(v: &Value) -> Cfg {
+    let g = |k: &str| v[k].as_u64().unwrap_or_else(|| vcommon::machinery_failure(&format!("replay file lacks {}", k)));
+    Cfg { cap: g("capacity") as usize, budget: g("budget") as usize, total: g("total_bytes") as usize, k: g("max_ops_per_poll") as u8, max_req: g("max_request") as u8 }
+}
+
+fn task_cfg_from(v: &Value) -> TCfg {
+    let g = |k: &str| v[k].as_u64().unwrap_or_else(|| vcommon::machinery_failure(&format!("replay file lacks {}", k)));
+    let name = v["script"].as_str().unwrap_or("");
+    let script = tasklevel::scripts(true)
+        .into_iter()
+        .find(|s| s.name == name)
+        .unwrap_or_else(|| vcommon::machinery_failure(&format!("unknown script {:?}", name)));
+    TCfg { cap: g("capacity") as usize, budget: g("budget") as usize, script }
+}
+
+fn replay(ctx: Ctx, r: Value) -> ! {
+    let sig = r["signature"].as_str().unwrap_or("").to_string();
+    let d = &r["detail"];
+    match d["leg"].as_str() {
+        Some("op") => {
+            let cfg = op_cfg_from(&d["config"]);
+            let ops: Vec<Op> = d["ops"]
+                .as_array()
+                .unwrap_or_else(|| vcommon::machinery_failure("replay file lacks ops"))
+                .iter()
+                .map(|o| Op::parse(o.as_str().unwrap_or("")).unwrap_or_else(|| vcommon::machinery_failure(&format!("bad op {}", o))))
+                .collect();
+            let (trace, v) = oplevel::run_traced(&cfg, &ops);
+            for l in &trace {
+                eprintln!("{}", l);
+            }
+            if let Some(v) = v {
+                ctx.violation("op", &v.sig, json!({"leg": "op", "config": op_cfg_json(&cfg), "ops": ops.iter().map(|o| o.name()).collect::<Vec<_>>(), "explanation": v.expl, "trace": trace}));
+            }
+        }
+        Some("task") => {
+            let cfg = task_cfg_from(&d["config"]);
+            let choices: Vec<u8> = d["choices"].as_array().map(|a| a.iter().map(|x| x.as_u64().unwrap_or(0) as u8).collect()).unwrap_or_default();
+            match sched::run_one::<ChanWorld>(&cfg, &choices, true) {
+                Ok(rec) => {
+                    for l in &rec.outcome.log {
+                        eprintln!("{}", l);
+                    }
+                    for (s, e) in &rec.outcome.violations {
+                        if *s == sig || !rec.outcome.violations.iter().any(|x| x.0 == sig) {
+                            ctx.violation("task", s, json!({"leg": "task", "config": d["config"], "choices": choices, "explanation": e, "log": rec.outcome.log}));
+                        }
+                    }
+                }
+                Err(e) => vcommon::machinery_failure(&format!("replay: {}", e)),
+            }
+        }
+        other => vcommon::machinery_failure(&format!("replay file has unknown leg {:?}", other)),
+    }
+    ctx.finish("model_checking", "replay")
+}
+
+fn run_op_leg(ctx: &Ctx) {
+    let t0 = Instant::now();
+    let quick = ctx.quick();
+    let caps: Vec<usize> = if quick { vec![1, 2, 3] } else { vec![1, 2, 3, 4] };
+    let total = if quick { 8 } else { 12 };
+    let k = if quick { 3 } else { 4 };
+    let max_req = if quick { 3 } else { 4 };
+    let max_states: u64 = 6_000_000;
+    let budgets: Vec<usize> = if quick { BUDGETS.to_vec() } else { vec![2, 3, 4, 64] };
+    let mut cfgs = vec![];
+    for &cap in &caps {
+        for &budget in &budgets {
+            cfgs.push(Cfg { cap, budget, total, k, max_req });
+        }
+    }
+    let threads = vcommon::ncpu();
+    let mut leg = Leg {
+        name: "op".into(),
+        engine: "E2-space".into(),
+        rule: "distinct canonical states (written, read, closed flags, observed closed flag, waker-slot owner, per side: idle+ops-in-poll+budget residue / pending request+woken); non-trivial = at least one side is pending (waker mechanism in play)".into(),
+        exhaustive: true,
+        ..Default::default()
+    };
+    let mut per_cfg = vec![];
+    let mut found: BTreeMap<String, Value> = BTreeMap::new();
+    for cfg in &cfgs {
+        let tc = Instant::now();
+        let nontrivial: Mutex<HashSet<Snap>> = Mutex::new(HashSet::new());
+        let both_pending = std::sync::atomic::AtomicU64::new(0);
+        let stats = vcommon::space::bfs(
+            oplevel::initial(cfg),
+            |s: &HState| oplevel::enabled(cfg, &s.snap),
+            |s: &HState, op: &Op| oplevel::step(cfg, s, op),
+            |s: &HState| {
+                if s.snap.nontrivial() {
+                    let mut g = nontrivial.lock().unwrap();
+                    if g.insert(s.snap.clone())
+                        && matches!(s.snap.r, oplevel::SideSnap::Pend { .. })
+                        && matches!(s.snap.w, oplevel::SideSnap::Pend { .. })
+                    {
+                        both_pending.fetch_add(1, Ordering::Relaxed);
+                    }
+                }
+                s.snap.clone()
+            },
+            |_s: &HState| Ok(()),
+            10_000,
+            max_states,
+            threads,
+        );
+        let nt = nontrivial.lock().unwrap().len() as u64;
+        leg.states += stats.states;
+        leg.transitions += stats.transitions;
+        leg.evaluations += stats.transitions;
+        leg.distinct_nontrivial += nt;
+        if !stats.fixpoint {
+            leg.exhaustive = false;
+        }
+        for p in stats.sample_paths.iter().take(1) {
+            if leg.samples.len() < 3 {
+                leg.samples.push(json!({"config": op_cfg_json(cfg), "ops": p.iter().map(|o| o.name()).collect::<Vec<_>>()}));
+            }
+        }
+        per_cfg.push(json!({"config": op_cfg_json(cfg), "states": stats.states, "transitions": stats.transitions, "depth": stats.depth_reached,
+            "fixpoint": stats.fixpoint, "capped": stats.capped, "states_with_a_pending_side": nt, "states_with_both_sides_pending": both_pending.load(Ordering::Relaxed),
+            "wall_s": (tc.elapsed().as_secs_f64() * 1000.0).round() / 1000.0}));
+        for (path, sig) in &stats.violations {
+            if found.contains_key(sig) {
+                continue;
+            }
+            // re-run the counterexample twice with tracing: it must fail the same way
+            let (trace, v1) = oplevel::run_traced(cfg, path);
+            let (_, v2) = oplevel::run_traced(cfg, path);
+            match (v1, v2) {
+                (Some(a), Some(b)) if a.sig == *sig && b.sig == *sig => {
+                    found.insert(
+                        sig.clone(),
+                        json!({"leg": "op", "config": op_cfg_json(cfg), "ops": path.iter().map(|o| o.name()).collect::<Vec<_>>(), "explanation": a.expl, "trace": trace}),
+                    );
+                }
+                _ => vcommon::machinery_failure(&format!("C12: nondeterminism: counterexample {:?} for {} does not reproduce", path, sig)),
+            }
+        }
+    }
+    // a sample that exercises the waker hand-over, always the same one
+    let demo = [Op::Read(1), Op::Write(1), Op::Write(1), Op::Read(1)];
+    let (tr, _) = oplevel::run_traced(&cfgs[0], &demo);
+    leg.samples.push(json!({"config": op_cfg_json(&cfgs[0]), "ops": demo.iter().map(|o| o.name()).collect::<Vec<_>>(), "trace": tr}));
+    let mism = oplevel::BUDGET_MODEL_MISMATCHES.load(Ordering::Relaxed);
+    leg.bounds = json!({
+        "capacities": caps, "budgets": budgets, "total_bytes_offered": total, "max_ops_per_logical_poll": k, "request_sizes": format!("0..={}", max_req),
+        "depth": "unbounded (search runs until the frontier is empty)",
+        "fixpoint_reached_in_every_configuration": leg.exhaustive,
+        "implementation_calls_including_history_replay": oplevel::IMPL_CALLS.load(Ordering::Relaxed),
+        "budget_yields_observed": oplevel::BUDGET_YIELDS.load(Ordering::Relaxed),
+        "budget_model_mismatches": mism,
+        "per_configuration": per_cfg,
+    });
+    if mism > 0 {
+        eprintln!("[C12] warning: {} operations behaved differently from the harness' model of the coop budget arithmetic (budget residues restored before operations may not be the ones the implementation would have)", mism);
+    }
+    leg.wall_s = t0.elapsed().as_secs_f64();
+    ctx.add_leg(leg);
+    for (sig, d) in found {
+        ctx.violation("op", &sig, d);
+    }
+}
+
+fn task_cfg_json(c: &TCfg) -> Value {
+    json!({"capacity": c.cap, "budget": c.budget, "script": c.script.name})
+}
+
+fn run_task_leg(ctx: &Ctx) {
+    let t0 = Instant::now();
+    let quick = ctx.quick();
+    let scripts = tasklevel::scripts(!quick);
+    let threads = vcommon::ncpu();
+    // (configuration, deviation bound)
+    let mut grid: Vec<(TCfg, u32)> = vec![];
+    for cap in [1usize, 2, 3] {
+        for budget in BUDGETS {
+            for s in &scripts {
+                let core = cap == 1 && budget != 3;
+                let d = match (quick, core) {
+                    (true, false) => 2,
+                    (true, true) => 3,
+                    (false, false) => 5,
+                    (false, true) => 6,
+                };
+                grid.push((TCfg { cap, budget, script: s.clone() }, d));
+            }
+        }
+    }
+    let wall_cap_s = if quick { 40.0 } else { 720.0 };
+    let mut total = sched::ExploreStats::default();
+    let mut per_cfg = vec![];
+    let mut completed: BTreeMap<u32, u64> = BTreeMap::new();
+    let mut exhaustive = true;
+    let mut samples = vec![];
+    let mut found: BTreeMap<String, Value> = BTreeMap::new();
+    for (cfg, d) in &grid {
+        if t0.elapsed().as_secs_f64() > wall_cap_s {
+            exhaustive = false;
+            per_cfg.push(json!({"config": task_cfg_json(cfg), "skipped": "wall cap reached"}));
+            continue;
+        }
+        let st = sched::explore::<ChanWorld>(cfg, *d, if quick { 400_000 } else { 6_000_000 }, threads);
+        if !st.machinery_errors.is_empty() {
+            vcommon::machinery_failure(&format!("C12 task leg: {}", st.machinery_errors[0]));
+        }
+        if st.capped {
+            exhaustive = false;
+        } else {
+            *completed.entry(*d).or_insert(0) += 1;
+        }
+        per_cfg.push(json!({"config": task_cfg_json(cfg), "deviation_bound": d, "executions": st.executions, "steps": st.steps,
+            "distinct_digests": st.distinct_digests, "nontrivial": st.nontrivial, "longest_schedule": st.max_len, "capped": st.capped}));
+        for (sig, _expl, choices) in &st.violations {
+            if found.contains_key(sig) {
+                continue;
+            }
+            // replay twice with tracing before reporting
+            let a = sched::run_one::<ChanWorld>(cfg, choices, true);
+            let b = sched::run_one::<ChanWorld>(cfg, choices, true);
+            match (a, b) {
+                (Ok(a), Ok(b)) if a.outcome.digest == b.outcome.digest && a.outcome.violations.iter().any(|x| &x.0 == sig) => {
+                    let expl = a.outcome.violations.iter().find(|x| &x.0 == sig).map(|x| x.1.clone()).unwrap_or_default();
+                    found.insert(
+                        sig.clone(),
+                        json!({"leg": "task", "config": task_cfg_json(cfg), "choices": choices, "schedule": a.labels, "explanation": expl, "log": a.outcome.log}),
+                    );
+                }
+                _ => vcommon::machinery_failure(&format!("C12: nondeterminism: schedule {:?} of {:?} does not reproduce {}", choices, cfg, sig)),
+            }
+        }
+        if samples.len() < 3 && (cfg.budget == 2 || samples.is_empty()) {
+            if let Ok(rec) = sched::run_one::<ChanWorld>(cfg, &[], true) {
+                samples.push(json!({"config": task_cfg_json(cfg), "schedule": "canonical (all choices 0)", "log": rec.outcome.log}));
+            }
+        }
+        sched::merge(&mut total, st);
+    }
+    let leg = Leg {
+        name: "task".into(),
+        engine: "E1-sched".into(),
+        states: total.distinct_digests,
+        transitions: total.steps,
+        evaluations: total.executions,
+        distinct_nontrivial: total.nontrivial,
+        rule: "executions = schedules of {poll writer, poll reader, spurious poll, drop writer task, drop reader task} with <= d deviations from the eager schedule; non-trivial = executions with >= 1 deviation whose per-task observation log (sequence of poll_read/poll_write/flush/shutdown results and task results) differs from the canonical one".into(),
+        samples,
+        exhaustive,
+        bounds: json!({
+            "capacities": [1, 2, 3], "budgets": BUDGETS, "scripts": scripts.iter().map(|s| s.name).collect::<Vec<_>>(),
+            "deviation_bound": if quick { "2 on the whole grid, 3 for capacity 1 with budget 2 and 64" } else { "5 on the whole grid, 6 for capacity 1 with budget 2 and 64" },
+            "configurations_completed_per_deviation_bound": completed.iter().map(|(d, n)| format!("d<={}: {}", d, n)).collect::<Vec<_>>(),
+            "wall_cap_s": wall_cap_s,
+            "per_configuration": per_cfg,
+        }),
+        wall_s: t0.elapsed().as_secs_f64(),
+    };
+    ctx.add_leg(leg);
+    for (sig, d) in found {
+        ctx.violation("task", &sig, d);
+    }
+}
+
 fn main() {
-    vcommon::machinery_failure("C12: engine not built yet");
+    let ctx = Ctx::from_env("C12");
+    // the subject's panics are caught and reported as violations; keep stderr readable
+    std::panic::set_hook(Box::new(|_| {}));
+    if let Some(r) = ctx.replay_request().cloned() {
+        replay(ctx, r);
+    }
+    run_op_leg(&ctx);
+    run_task_leg(&ctx);
+    ctx.assume("op-level interleavings = thread interleavings: every access to a Conduit field (data, capacity, waker, closed) in channel/mod.rs happens between `self.inner.lock()` and the end of the same function (poll_read, poll_write, poll_flush, poll_shutdown, is_closed, both Drop impls), including `waker.wake()`; the only code outside the lock is the coop budget (thread-local) and `wake_by_ref` on the caller's own waker. Checked by reading the code; a change that moves work outside the lock is outside this check");
+    ctx.assume("the coop budget is thread-local: the harness runs both logical tasks on one thread and restores each task's own residue through the public RunWithBudget::with_budget before every operation (op leg); the residue arithmetic (minus one per operation, yield at zero) is mirrored by the harness and every predicted yield is compared with the observed one (budget_model_mismatches in the evidence)");
+    ctx.assume("the canonical key identifies the buffer content with (written, read) - guaranteed by the FIFO oracle on every earlier transition - and does not include the internal offset/allocation state of BytesMut; bytes::BytesMut is trusted");
+    ctx.assume("a task waits only for the waker of its most recent poll (AsyncRead/AsyncWrite contract); every logical poll uses a fresh waker");
+    ctx.assume("bounds: one reader task and one writer task; capacities, request sizes, total bytes offered, operations per logical poll and (task leg) deviation bound as listed per leg; budget 1 is outside the grid");
+    ctx.finish(
+        "model_checking",
+        "explicit-state search to a fixpoint over the real ByteReader/ByteWriter at operation level (no-lost-wake-up invariant in every state) plus deviation-bounded schedule exploration of real write_all/read_exact/FramedRead futures with drop faults",
+    );
 }
